@@ -96,6 +96,19 @@ func runC18(args []string) error {
 		}
 		fx[ts] = f
 	}
+	// value snapshot of the shared parameters objects: they are "already valid", so no call may change them
+	pdigest := func() []string {
+		var d []string
+		for _, ts := range allTS {
+			d = append(d, sha([]byte(fmt.Sprintf("%+v", shared[ts]))))
+		}
+		return d
+	}
+	pinit := []string{}
+	for _, ts := range allTS {
+		c, _ := getCodec(ts)
+		pinit = append(pinit, sha([]byte(fmt.Sprintf("%+v", c.GetDefaultParameters()))))
+	}
 	scn := 0
 	runSched := func(calls []concCall, gmp int, kind string) {
 		scn++
@@ -159,7 +172,7 @@ func runC18(args []string) error {
 			cos = append(cos, co)
 		}
 		b, _ := json.Marshal(cos)
-		t.Event("conc", "kind", kind, "gomaxprocs", gmp, "ncalls", len(calls), "calls", json.RawMessage(b))
+		t.Event("conc", "kind", kind, "gomaxprocs", gmp, "ncalls", len(calls), "calls", json.RawMessage(b), "pshared", pdigest(), "pinit", pinit, "tsorder", allTS)
 	}
 	// (a) TLC-enumerated overlaps (pairs of model ops x parameter modes), mapped onto the registered syntaxes
 	if *scnPath != "" {
